@@ -100,12 +100,14 @@ struct CipherSink {
     body_left: usize,
     chunk_idx: u64,
     total: u64,
+    wcap: usize,
     sh: Rc<Shared>,
 }
 
 impl Write for CipherSink {
     fn write(&mut self, buf: &[u8]) -> io::Result<usize> {
         let prev = alloc::pause();
+        let buf = if self.wcap > 0 && buf.len() > self.wcap { &buf[..self.wcap] } else { buf };
         let mut i = 0;
         while i < buf.len() {
             if self.header_left > 0 {
@@ -164,6 +166,7 @@ struct CipherSource {
     done: bool,
     cap: usize,
     ptbuf: Vec<u8>,
+    rec_pt: usize,
     sh: Rc<Shared>,
 }
 
@@ -181,7 +184,7 @@ impl Read for CipherSource {
             self.hpos += n;
         } else {
             if self.rpos == self.rec.len() && !self.done {
-                let k = (CS as u64).min(self.plain_left) as usize;
+                let k = (self.rec_pt as u64).min(self.plain_left) as usize;
                 self.plain.fill(&mut self.ptbuf[..k]);
                 self.plain_left -= k as u64;
                 let last = self.plain_left == 0;
@@ -209,14 +212,17 @@ struct PlainSink {
     expect: ByteStream,
     total: u64,
     scratch: [u8; 4096],
+    wcap: usize,
+    rec: u64,
     sh: Rc<Shared>,
 }
 
 impl Write for PlainSink {
     fn write(&mut self, buf: &[u8]) -> io::Result<usize> {
         let prev = alloc::pause();
+        let buf = if self.wcap > 0 && buf.len() > self.wcap { &buf[..self.wcap] } else { buf };
         if !buf.is_empty() {
-            let chunk_i = self.total / CS as u64;
+            let chunk_i = self.total / self.rec;
             let units = self.sh.input_units.get();
             let lag = units as i64 - chunk_i as i64;
             if lag > self.sh.max_lag.get() {
@@ -259,6 +265,11 @@ pub struct Scn {
     pub cap: usize,
     pub seed: u64,
     pub password: Hx,
+    /// 0 = the sink accepts everything; otherwise it accepts at most this many bytes per write
+    pub wcap: usize,
+    /// decryption only: plaintext bytes per chunk record of the (reference-written) file; 0 = 65536.
+    /// Files with short chunks are what the encryptor writes when its source returns short reads.
+    pub rec: usize,
 }
 
 pub struct A6;
@@ -283,7 +294,7 @@ fn run_one(s: &Scn, len: u64) -> Measured {
     match s.dir {
         Dir::Enc => {
             let mut src = PlainSource { stream: ByteStream::new(data_seed), left: len, cap: s.cap, sh: sh.clone() };
-            let mut sink = CipherSink { header_left: header_len, hdr: [0; 16], hdr_have: 0, body_left: 0, chunk_idx: 0, total: 0, sh: sh.clone() };
+            let mut sink = CipherSink { header_left: header_len, hdr: [0; 16], hdr_have: 0, body_left: 0, chunk_idx: 0, total: 0, wcap: s.wcap, sh: sh.clone() };
             let sk = PrivateKey::try_from(&s_priv[..]).unwrap();
             let spk = PublicKey::try_from(&rp::x25519_base(&s_priv)[..]).unwrap();
             let rpk = PublicKey::try_from(&rp::x25519_base(&r_priv)[..]).unwrap();
@@ -333,9 +344,10 @@ fn run_one(s: &Scn, len: u64) -> Measured {
                 done: false,
                 cap: s.cap,
                 ptbuf: vec![0u8; CS],
+                rec_pt: if s.rec == 0 { CS } else { s.rec.min(CS) },
                 sh: sh.clone(),
             };
-            let mut sink = PlainSink { expect: ByteStream::new(data_seed), total: 0, scratch: [0; 4096], sh: sh.clone() };
+            let mut sink = PlainSink { expect: ByteStream::new(data_seed), total: 0, scratch: [0; 4096], wcap: s.wcap, rec: if s.rec == 0 { CS as u64 } else { s.rec.min(CS) as u64 }, sh: sh.clone() };
             let rk = PrivateKey::try_from(&r_priv[..]).unwrap();
             let rpk = PublicKey::try_from(&rp::x25519_base(&r_priv)[..]).unwrap();
             let pw = s.password.0.clone();
@@ -369,8 +381,8 @@ impl Family for A6 {
     }
     fn budget(&self, tier: Tier, _p: &str) -> u64 {
         match tier {
-            Tier::Quick => 64,
-            Tier::Thorough => 400,
+            Tier::Quick => 160,
+            Tier::Thorough => 1200,
         }
     }
     fn generate(&self, rng: &mut Rng, tier: Tier, idx: u64) -> Scn {
@@ -390,14 +402,19 @@ impl Family for A6 {
         let cap = if short { *rng.pick(&[1000usize, 4096, 65535, 30000, 65537]) } else { 0 };
         // tiny caps on huge inputs only cost time
         let cap = if cap > 0 && len / (cap as u64) > 200_000 { 65535 } else { cap };
-        Scn { pass_mode, dir, len, cap, seed: rng.next_u64(), password: Hx(crate::gen::gen_password(rng)) }
+        let wcap = if idx < 16 || rng.chance(1, 2) { 0 } else { *rng.pick(&[1000usize, 4096, 65535, 100000]) };
+        let rec = if idx < 16 || dir == Dir::Enc || rng.chance(1, 2) { 0 } else { *rng.pick(&[1000usize, 4096, 30000, 65535]) };
+        // keep the number of seam calls of one run in the low millions
+        let wcap = if wcap > 0 && len / (wcap as u64) > 2_000_000 { 65535 } else { wcap };
+        let rec = if rec > 0 && len / (rec as u64) > 2_000_000 { 30000 } else { rec };
+        Scn { pass_mode, dir, len, cap, seed: rng.next_u64(), password: Hx(crate::gen::gen_password(rng)), wcap, rec }
     }
     fn execute(&self, s: &Scn) -> RunOut {
         let mut out = RunOut::default();
         out.props = vec!["C11"];
         let base = run_one(s, BASE_LEN);
         let m = run_one(s, s.len);
-        let name = format!("{} {:?} len={} cap={}", if s.pass_mode { "pass" } else { "key" }, s.dir, s.len, s.cap);
+        let name = format!("{} {:?} len={} read-cap={} write-cap={} chunk={}", if s.pass_mode { "pass" } else { "key" }, s.dir, s.len, s.cap, s.wcap, if s.rec == 0 { CS } else { s.rec });
         if !m.ok || !base.ok {
             out.violations.push(viol("C11", "operation_failed", format!("{}: {} / baseline {}", name, m.detail, base.detail)));
         }
@@ -439,8 +456,8 @@ impl Family for A6 {
             out.count("probe.gib_scale_runs", 1);
         }
         let lc = if s.len == 0 { "0".to_string() } else { format!("2^{}", 64 - s.len.leading_zeros()) };
-        out.signature = format!("a6|{}|{:?}|{}|cap{}|{}", s.pass_mode, s.dir, lc, s.cap, s.len % 65536 == 0);
-        out.nontrivial = s.len > CS as u64 || s.cap > 0;
+        out.signature = format!("a6|{}|{:?}|{}|cap{}|w{}|rec{}|{}", s.pass_mode, s.dir, lc, s.cap, s.wcap, s.rec, s.len % 65536 == 0);
+        out.nontrivial = s.len > CS as u64 || s.cap > 0 || s.wcap > 0 || s.rec > 0;
         out
     }
     fn shrink(&self, s: &Scn) -> Vec<Scn> {
@@ -455,6 +472,16 @@ impl Family for A6 {
         if s.cap > 0 {
             let mut t = s.clone();
             t.cap = 0;
+            c.push(t);
+        }
+        if s.wcap > 0 {
+            let mut t = s.clone();
+            t.wcap = 0;
+            c.push(t);
+        }
+        if s.rec > 0 {
+            let mut t = s.clone();
+            t.rec = 0;
             c.push(t);
         }
         c
